@@ -49,6 +49,8 @@ func (a *ake) wipe(wipeKeys bool) {
 	a.theirPublicValue = nil
 
 	wipeBytes(a.r[:])
+	wipeBytes(a.ssid[:])
+	a.sentRevealSig = false
 
 	a.wipeGX()
 	a.revealKey.unlock()
